@@ -1579,7 +1579,7 @@ class Evaluator:
             if '.units.' in name or name.startswith('u.'):
                 if short in UNIT and not a:
                     return UNIT[short]
-                if short == 'Quantity' and a:
+                if short == 'Quantity' and a and is_num(a[0]):
                     q = a[0]
                     u = a[1] if len(a) > 1 else kwargs.get('unit')
                     if u is None:
@@ -1588,7 +1588,7 @@ class Evaluator:
                         u = UNIT[u.v]
                     if is_num(q) and is_num(u):
                         return q * u
-            if short == 'Angle' and a:
+            if short == 'Angle' and a and is_num(a[0]):
                 q = a[0]
                 u = a[1] if len(a) > 1 else kwargs.get('unit')
                 if isinstance(u, Const) and u.v in UNIT:
